@@ -36,6 +36,7 @@ struct T {
     static int kc(Cat&) { return 2; }
     static int mdc(Dog&, int, Cat&) { return 3; }
     static int maa(Animal&, int, Animal&) { return 4; }
+    static int mdc2(Dog&, Cat&) { return 9; }
     static int pb(VP<Bulldog>) { return 5; }
     static int pa(VP<Animal>) { return 6; }
     static int hd(VSP<Dog>) { return 7; }
@@ -78,7 +79,14 @@ int main(int argc, char** argv) {
     int iters = argc > 2 ? std::atoi(argv[2]) : 3000;
     T<P1>::reg(); T<P2>::reg(); T<P3>::reg(); T<P4>::reg(); T<P5>::reg();
     struct Other : policy::release::rebind<Other> {};
-    static use_classes<Animal, Dog, Cat, Other> oc;
+    // the policy that is updated while the others are in use declares the same methods - same keys, same
+    // policy-independent signatures - after two more methods of its own, so that its slots differ: nothing a
+    // method of one policy reads at call time may be shared with the method of the same key in another policy
+    using extra1 = method<struct e1, int(virtual_<Animal&>), Other>;
+    using extra2 = method<struct e2, int(virtual_<Animal&>, virtual_<Animal&>), Other>;
+    static extra1::add_function<T<Other>::kd> x1;
+    static extra2::add_function<T<Other>::mdc2> x2;
+    T<Other>::reg();
     static use_classes<Unrelated<0>, Unrelated<1>, Unrelated<2>, Unrelated<3>, Unrelated<4>, Unrelated<5>, Unrelated<6>, Unrelated<7>,
                        Unrelated<8>, Unrelated<9>, Unrelated<10>, Unrelated<11>, Unrelated<12>, Unrelated<13>, Unrelated<14>, Plugin> pc;
     // every facet of a rebound policy is keyed on the new policy: no static of P5 belongs to Plugin
